@@ -322,7 +322,7 @@ pub fn cobss(obs: &[Obs]) -> String {
 // ---------------------------------------------------------------------------------------------
 // generators
 
-pub const FIELD_COUNTS: &[usize] = &[0, 1, 2, 3, 5, 8, 32, 33, 40, 64];
+pub const FIELD_COUNTS: &[usize] = &[0, 1, 2, 3, 5, 8, 32, 33, 40, 64, 70, 100];
 
 pub fn call_site(kind: CallSiteKind, nonce: &str, name: &str, nfields: usize, dup_fields: bool) -> CallSiteData {
     let fields = (0..nfields)
@@ -444,8 +444,13 @@ pub fn gen_stream(r: &mut Rng, cfg: &StreamCfg, nonce: &str) -> Vec<TracingEvent
                 let metadata_id = if r.chance(bad) { 999 } else { m };
                 let parent_id = if cfg.explicit_parents && r.chance(30) && (bad > 0 || !g.handles.is_empty()) { Some(g.pick_span(r, bad)) } else { None };
                 let max = if r.chance(bad) { 40 } else { nf.min(32).max(2) };
-                let id = g.next;
-                g.next += 1;
+                // bogus streams may re-announce a span id that is still alive
+                let id = if bad > 0 && !g.handles.is_empty() && r.chance(bad / 3) {
+                    g.pick_span(r, 0)
+                } else {
+                    g.next += 1;
+                    g.next - 1
+                };
                 evs.push(TracingEvent::NewSpan { id, parent_id, metadata_id, values: gen_values(r, nf, max, bad > 0) });
                 g.handles.insert(id, 1);
             }
@@ -603,6 +608,19 @@ pub fn corpus(nonce: &str) -> Vec<Vec<Step>> {
             r(TracingEvent::SpanEntered { id: 1 }),
             r(TracingEvent::SpanExited { id: 1 }),
             r(TracingEvent::SpanDropped { id: 1 }),
+        ],
+        // more than 64 accumulated values on a 100-field call site: first 32 with new_span, then chunks
+        vec![
+            r(TracingEvent::NewCallSite { id: 0, data: span_cs("wide", 100) }),
+            r(TracingEvent::NewSpan { id: 1, parent_id: None, metadata_id: 0, values: vals(0..32) }),
+            r(TracingEvent::ValuesRecorded { id: 1, values: vals(32..64) }),
+            r(TracingEvent::ValuesRecorded { id: 1, values: vals(64..90) }),
+            Step::Persist { keep: false },
+            r(TracingEvent::SpanEntered { id: 1 }),
+            r(TracingEvent::ValuesRecorded { id: 1, values: vals(90..100) }),
+            Step::Persist { keep: false },
+            r(TracingEvent::SpanEntered { id: 1 }),
+            r(TracingEvent::SpanExited { id: 1 }),
         ],
         // F3: child of an already-dropped explicit parent entered after a host restart
         vec![
